@@ -3,7 +3,7 @@ import core
 import alph_common as A
 
 def run(ctx):
-    core.run_extract(ctx, ["alph_poll", "alph_tokeninfo", "alph_process"])   # the C09 theorems do not depend on the confirmation test / re-observation filters
+    core.run_extract(ctx, A.EXTRACTORS_C09)   # the C09 theorems do not depend on the confirmation test / re-observation filters
     core.coq_prove(ctx, "C09")
     if ctx.tier == "thorough":
         core.coq_thorough_audit(ctx, "C09")
